@@ -286,11 +286,38 @@ Fixpoint built_over (bo : list (nat * option nat)) (b : nat) : option (option na
   | (b', o) :: bo' => if Nat.eqb b' b then Some o else built_over bo' b
   end.
 
+(* ---- the verbs at / do / be: under which context (nabe) an act is filed.  Contexts are numbered 0 = native and
+   kind_idx k + 1 for the act lists (so 5 = endo).  at(ctx) sets the current context, every bx resets it to native;
+   do / be file their act under the explicit nabe= when given, else under the current context, and native means the
+   act class's own default, endo ---- *)
+Definition NATIVE : nat := 0.
+Definition ENDO : nat := 5.
+Definition verb_ctx (explicit : option nat) (at_ctx : nat) : nat :=
+  let n := match explicit with Some e => e | None => at_ctx end in
+  if Nat.eqb n NATIVE then ENDO else n.
+
+Inductive stmt :=
+| SAt (ctx : nat)
+| SAct (explicit : option nat) (k j : nat).      (* do / be of the act (kind k, index j) *)
+
+(* the statements of one box -> (context filed under, k, j) in filing order *)
+Fixpoint file_from (at_ctx : nat) (ss : list stmt) : list (nat * (nat * nat)) :=
+  match ss with
+  | [] => []
+  | SAt c :: ss' => file_from c ss'
+  | SAct e k j :: ss' => (verb_ctx e at_ctx, (k, j)) :: file_from at_ctx ss'
+  end.
+Definition file_acts (ss : list stmt) : list (nat * (nat * nat)) := file_from NATIVE ss.
+Definition filed_under (fl : list (nat * (nat * nat))) (ctx : nat) : list (nat * nat) :=
+  map snd (filter (fun e => Nat.eqb (fst e) ctx) fl).
+
 Record case := { c_forest : forest;
                  c_ops : list op;
                  c_obs : list (status * list ev);
                  c_decl : list (nat * omode);                       (* the bx declarations, [] = boxes linked directly *)
-                 c_built : list (nat * option nat * list nat) }.    (* observed per declared box: over, unders *)
+                 c_built : list (nat * option nat * list nat);      (* observed per declared box: over, unders *)
+                 c_stmts : list (list stmt);                        (* per box: its at / do / be statements *)
+                 c_filed : list (list (nat * list (nat * nat))) }.  (* observed per box: (context, acts in that list) *)
 
 (* the structure bx built is the model's fold, and it is the forest the case runs on *)
 Definition check_built (c : case) : bool :=
@@ -301,8 +328,23 @@ Definition check_built (c : case) : bool :=
   forallb (fun e => option_nat_eqb (over (c_forest c) (fst e)) (snd e) &&
                     list_eqb Nat.eqb (nth (fst e) (unders (c_forest c)) []) (built_unders bo (fst e))) bo.
 
+(* the act lists the verbs built are the model's filing, and every act sits in the list of its own kind, in index
+   order, as many as the forest says *)
+Definition pair_nat_eqb (x y : nat * nat) : bool := Nat.eqb (fst x) (fst y) && Nat.eqb (snd x) (snd y).
+Definition check_filed (c : case) : bool :=
+  Nat.eqb (length (c_stmts c)) (length (c_filed c)) &&
+  forallb (fun so => forallb (fun co => list_eqb pair_nat_eqb (filed_under (file_acts (fst so)) (fst co)) (snd co))
+                             (snd so))
+          (combine (c_stmts c) (c_filed c)) &&
+  forallb (fun bs =>
+             let b := fst bs in
+             forallb (fun k => list_eqb pair_nat_eqb (filed_under (file_acts (snd bs)) (S k))
+                                        (map (fun j => (k, j)) (seq 0 (nth k (nth b (counts (c_forest c)) []) 0))))
+                     [0; 1; 2; 3; 4; 5; 6; 8; 9])
+          (combine (seq 0 (length (c_stmts c))) (c_stmts c)).
+
 Definition check_case (c : case) : bool :=
-  check_built c &&
+  check_built c && check_filed c &&
   list_eqb (pair_eqb status_eqb (list_eqb ev_eqb)) (run (c_forest c) Idle (c_ops c)) (c_obs c).
 
 (* branch classifier: one id per op *)
